@@ -1,8 +1,8 @@
-(* C12 at the text level, for schemas without descriptions, defaults and
-   applied custom directives ("plain" schemas): the text the schema printer
-   writes parses (parser model of C01, through the C03 round trip) to a
-   document that builds (C11_exact_build) a schema equivalent to the one
-   printed, and printing that schema gives the same text again. *)
+(* C12 at the text level, for schemas without descriptions ([text_schema]:
+   default values and applied custom directives included): the text the
+   schema printer writes parses (parser model of C01, through the C03 round
+   trip) to a document that builds (C11_exact_build) a schema equivalent to
+   the one printed, and printing that schema gives the same text again. *)
 From PyGql Require Import Lang.PrinterModel Spec.PrinterSpec Lang.Parser Spec.GrammarSpec Spec.SdlGrammarSpec
                           Proofs.PrinterRoundtrip Proofs.PrinterSdlRoundtrip.
 From PyGql Require Import Spec.SdlSpec Schema.SdlPrint Spec.SdlRoundtripSpec.
@@ -11,57 +11,53 @@ From PyGql Require Import Proofs.SdlProofs Proofs.SdlExactProofs Proofs.SdlOrder
                           Proofs.SdlValidInvProofs Proofs.SdlDocRulesProofs.
 From Coq Require Import Lia Sorting.Permutation Sorting.Sorted.
 
-Lemma plain_ivalues sc a : plain_schema sc -> In a (schema_ivalues sc) -> plain_siv a.
+(* the guards that exclude the open findings: every default's literal coerces
+   back at its declared type (custom-scalar-numeric-string-default of C12),
+   and the emitted document is outside the two findings of C11 *)
+Definition defaults_guard (sc : schema) : Prop :=
+  (forall a, In a (schema_ivalues sc) -> default_rt (env_of_schema [] sc) (declared_env (doc_of sc)) a)
+  /\ defaults_stable (doc_of sc).
+
+(* without default values the guards hold *)
+Definition no_defaults (sc : schema) : Prop := forall a, In a (schema_ivalues sc) -> siv_default a = None.
+
+Lemma iv_of_no_default E0 a : siv_default a = None -> iv_default (iv_of E0 a) = None.
+Proof. intros H. unfold iv_of, dflt_of. rewrite H. reflexivity. Qed.
+
+Lemma no_defaults_guard o sc : text_schema o sc -> no_defaults sc -> defaults_guard sc.
 Proof.
-  intros (Ht & Hd & _) Hin. unfold schema_ivalues in Hin. apply in_app_or in Hin. destruct Hin as [Hin|Hin].
-  - apply in_flat_map in Hin. destruct Hin as (t & Htin & Ha). rewrite Forall_forall in Ht.
-    destruct (Ht t Htin) as (_ & _ & _ & Hk).
-    destruct t; cbn [tdef_ivalues] in Ha; try contradiction.
-    + destruct Hk as (_ & Hf & _). apply in_flat_map in Ha. destruct Ha as (f & Hfin & Ha).
-      rewrite Forall_forall in Hf. destruct (Hf f Hfin) as (_ & _ & _ & _ & Hargs).
-      rewrite Forall_forall in Hargs. apply Hargs; exact Ha.
-    + destruct Hk as (_ & Hf). apply in_flat_map in Ha. destruct Ha as (f & Hfin & Ha).
-      rewrite Forall_forall in Hf. destruct (Hf f Hfin) as (_ & _ & _ & _ & Hargs).
-      rewrite Forall_forall in Hargs. apply Hargs; exact Ha.
-    + destruct Hk as (_ & Hf). rewrite Forall_forall in Hf. apply Hf; exact Ha.
-  - apply in_flat_map in Hin. destruct Hin as (dd & Hdin & Ha). rewrite Forall_forall in Hd.
-    destruct (Hd dd Hdin) as (_ & _ & Hargs & _). rewrite Forall_forall in Hargs. apply Hargs; exact Ha.
+  intros Hp Hnd. split.
+  - intros a Ha. unfold default_rt. rewrite (Hnd a Ha). discriminate.
+  - assert (Hdoc : forall x iv, In x (doc_defs (doc_of sc)) -> In iv (def_ivalues x) -> iv_default iv = None).
+    { unfold doc_of. cbn [doc_defs]. intros x iv Hx Hiv. apply in_app_or in Hx. destruct Hx as [Hx|Hx].
+      - destruct (schema_def_needed sc); [|contradiction]. destruct Hx as [<-|[]]. contradiction.
+      - apply in_app_or in Hx. destruct Hx as [Hx|Hx]; apply in_map_iff in Hx; destruct Hx as (y & <- & Hy);
+          apply sort_by_in in Hy.
+        + cbn [ddef1_of def_ivalues] in Hiv. apply in_map_iff in Hiv. destruct Hiv as (a & <- & Ha).
+          apply iv_of_no_default. apply Hnd. unfold schema_ivalues. apply in_or_app; right. apply in_flat_map. eauto.
+        + assert (Hin : forall a, In a (tdef_ivalues y) -> siv_default a = None).
+          { intros a Ha. apply Hnd. unfold schema_ivalues. apply in_or_app; left. apply in_flat_map. eauto. }
+          destruct y; cbn [def1_of def_ivalues tdef_ivalues] in Hiv, Hin; try contradiction.
+          * apply in_flat_map in Hiv. destruct Hiv as (f & Hf & Hiv). apply in_map_iff in Hf. destruct Hf as (g & <- & Hg).
+            cbn [fd_of fd_args] in Hiv. apply in_map_iff in Hiv. destruct Hiv as (a & <- & Ha).
+            apply iv_of_no_default. apply Hin. apply in_flat_map. eauto.
+          * apply in_flat_map in Hiv. destruct Hiv as (f & Hf & Hiv). apply in_map_iff in Hf. destruct Hf as (g & <- & Hg).
+            cbn [fd_of fd_args] in Hiv. apply in_map_iff in Hiv. destruct Hiv as (a & <- & Ha).
+            apply iv_of_no_default. apply Hin. apply in_flat_map. eauto.
+          * apply in_map_iff in Hiv. destruct Hiv as (a & <- & Ha). apply iv_of_no_default. apply Hin. exact Ha. }
+    split; intros iv Hin v Hv; exfalso.
+    + unfold base_ivalues in Hin. apply in_flat_map in Hin. destruct Hin as (x & Hx & Hiv).
+      assert (Hx' : In x (doc_defs (doc_of sc))).
+      { apply in_app_or in Hx. destruct Hx as [Hx|Hx]; apply filter_In in Hx; apply Hx. }
+      rewrite (Hdoc x iv Hx' Hiv) in Hv. discriminate.
+    + unfold ext_ivalues, type_exts in Hin. apply in_flat_map in Hin. destruct Hin as (x & Hx & Hiv).
+      apply filter_In in Hx. destruct Hx as [Hx' _].
+      rewrite (Hdoc x iv Hx' Hiv) in Hv. discriminate.
 Qed.
 
-Lemma plain_default_rt Ep E sc a : plain_schema sc -> In a (schema_ivalues sc) -> default_rt Ep E a.
-Proof.
-  intros Hp Hin. destruct (plain_ivalues sc a Hp Hin) as (Hd & _). unfold default_rt. rewrite Hd. discriminate.
-Qed.
-
-Lemma doc_of_no_defaults sc x iv : In x (doc_defs (doc_of sc)) -> In iv (def_ivalues x) -> iv_default iv = None.
-Proof.
-  unfold doc_of. cbn [doc_defs]. intros Hx Hiv. apply in_app_or in Hx. destruct Hx as [Hx|Hx].
-  - destruct (schema_def_needed sc); [|contradiction]. destruct Hx as [<-|[]]. contradiction.
-  - apply in_app_or in Hx. destruct Hx as [Hx|Hx]; apply in_map_iff in Hx; destruct Hx as (y & <- & _).
-    + cbn [ddef1_of def_ivalues] in Hiv. apply in_map_iff in Hiv. destruct Hiv as (a & <- & _). reflexivity.
-    + destruct y; cbn [def1_of def_ivalues] in Hiv; try contradiction.
-      * apply in_flat_map in Hiv. destruct Hiv as (f & Hf & Hiv). apply in_map_iff in Hf. destruct Hf as (g & <- & _).
-        cbn [fd_of fd_args] in Hiv. apply in_map_iff in Hiv. destruct Hiv as (a & <- & _). reflexivity.
-      * apply in_flat_map in Hiv. destruct Hiv as (f & Hf & Hiv). apply in_map_iff in Hf. destruct Hf as (g & <- & _).
-        cbn [fd_of fd_args] in Hiv. apply in_map_iff in Hiv. destruct Hiv as (a & <- & _). reflexivity.
-      * apply in_map_iff in Hiv. destruct Hiv as (a & <- & _). reflexivity.
-Qed.
-
-Lemma plain_defaults_stable sc : defaults_stable (doc_of sc).
-Proof.
-  split; intros iv Hin v Hv; exfalso.
-  - unfold base_ivalues in Hin. apply in_flat_map in Hin. destruct Hin as (x & Hx & Hiv).
-    assert (Hx' : In x (doc_defs (doc_of sc))).
-    { apply in_app_or in Hx. destruct Hx as [Hx|Hx]; apply filter_In in Hx; apply Hx. }
-    rewrite (doc_of_no_defaults sc x iv Hx' Hiv) in Hv. discriminate.
-  - unfold ext_ivalues, type_exts in Hin. apply in_flat_map in Hin. destruct Hin as (x & Hx & Hiv).
-    apply filter_In in Hx. destruct Hx as [Hx' _].
-    rewrite (doc_of_no_defaults sc x iv Hx' Hiv) in Hv. discriminate.
-Qed.
-
-(* C12_text_roundtrip for plain schemas *)
-Theorem text_roundtrip_plain intro spec o fl sc text :
-  plain_schema sc -> valid_locations sc -> schema_okb sc = true ->
+(* C12_text_roundtrip *)
+Theorem text_roundtrip intro spec o fl sc text :
+  text_schema o sc -> valid_locations sc -> schema_okb sc = true -> defaults_guard sc ->
   po_introspection o = false ->
   no_location fl = true -> allow_type_system fl = true -> all_ws (po_indent o) ->
   print_schema intro spec o sc = Ok text ->
@@ -70,23 +66,20 @@ Theorem text_roundtrip_plain intro spec o fl sc text :
                 /\ roundtrip_equiv sc' sc = true
                 /\ declares_again sc sc'.
 Proof.
-  intros Hp Hl Hok Hi Hnl Hts Hws Hprint.
+  intros Hp Hl Hok [Hrt Hstable] Hi Hnl Hts Hws Hprint.
   destruct (text_parses_to_ast intro spec o fl sc text Hp Hl Hi Hnl Hts Hws Hprint) as [Hparse Hast].
-  assert (Hrules : sdl_rules_ok (doc_of sc)).
-  { apply (ast_rules_ok sc (doc_of sc) Hok Hast). intros a Ha. apply (plain_default_rt _ _ sc a Hp Ha). }
   exists (doc_of sc), (declared (doc_of sc)). split; [exact Hparse|].
-  destruct (members_roundtrip_doc sc (doc_of sc) Hok Hast
-              (fun a Ha => plain_default_rt _ _ sc a Hp Ha) Hrules (plain_defaults_stable sc)) as (Hb & He & _).
+  destruct (members_roundtrip_guarded sc (doc_of sc) Hok Hast Hrt Hstable) as (_ & Hb & He & _).
   split; [exact Hb|]. split; [exact He|].
-  apply declared_of_ast_struct; [exact Hok|exact Hast|]. intros a Ha. apply (plain_default_rt _ _ sc a Hp Ha).
+  exact (declared_of_ast_struct sc (doc_of sc) Hok Hast Hrt).
 Qed.
 
 (* ------------------------------------------------------------------ *)
 (* printing again: the rebuilt schema prints to the same text           *)
 
-Lemma map_eq_transfer {A B} (s : A -> A) (P : A -> Prop) (g : A -> B) :
-  (forall a b, s a = s b -> P b -> P a /\ g a = g b) ->
-  forall l1 l2, map s l1 = map s l2 -> Forall P l2 -> Forall P l1 /\ map g l1 = map g l2.
+Lemma map_eq_transfer {A B} (s : A -> A) (P Q : A -> Prop) (g g' : A -> B) :
+  (forall a b, s a = s b -> P b -> Q a /\ g' a = g b) ->
+  forall l1 l2, map s l1 = map s l2 -> Forall P l2 -> Forall Q l1 /\ map g' l1 = map g l2.
 Proof.
   intros H. induction l1 as [|a l1 IH]; intros [|b l2] He Hf; try discriminate; [split; [constructor|reflexivity]|].
   cbn [map] in He. injection He as Hab Hl. inversion Hf as [|? ? Hb Hl2]; subst.
@@ -97,62 +90,102 @@ Qed.
 Lemma map_eq_nonempty {A B} (s : A -> B) l1 l2 : map s l1 = map s l2 -> l2 <> [] -> l1 <> [].
 Proof. destruct l1, l2; try discriminate; congruence. Qed.
 
-Lemma strip_siv_plain a b : strip_siv a = strip_siv b -> plain_siv b -> plain_siv a /\ iv_of a = iv_of b.
-Proof.
-  destruct a, b. unfold strip_siv, plain_siv, iv_of, nodirs. cbn. intros H. injection H as -> -> -> -> -> Hd.
-  intros (H1 & H2 & H3 & H4 & H5). rewrite Hd. repeat split; assumption.
-Qed.
+Section StripTransfer.
+  Variable o : popts.
+  Variables E0 E0' : env.
+  Hypothesis Henv : forall n, alookup n E0 = alookup n E0'.
 
-Lemma strip_sivs_plain l1 l2 :
-  map strip_siv l1 = map strip_siv l2 -> Forall plain_siv l2 -> Forall plain_siv l1 /\ map iv_of l1 = map iv_of l2.
-Proof. apply map_eq_transfer. apply strip_siv_plain. Qed.
+  Lemma dflt_transfer a b :
+    siv_default a = siv_default b -> siv_type a = siv_type b -> dflt_ok E0 b ->
+    dflt_ok E0' a /\ dflt_of E0' a = dflt_of E0 b.
+  Proof.
+    unfold dflt_ok, dflt_of. intros -> -> H. destruct (siv_default b) as [v|]; [|split; [exact I|reflexivity]].
+    destruct H as (n & Hn & Hg).
+    assert (Hn' : node_of_value print_fuel E0' v (siv_type b) = Ok n).
+    { apply (node_env_mono E0 E0'); [|exact Hn]. intros m info Hm. rewrite <- Henv. exact Hm. }
+    split; [exists n; split; assumption|rewrite Hn, Hn'; reflexivity].
+  Qed.
 
-Lemma strip_sf_plain a b : strip_sf a = strip_sf b -> plain_sf b -> plain_sf a /\ fd_of a = fd_of b.
-Proof.
-  destruct a, b. unfold strip_sf, plain_sf, fd_of, nodirs. cbn. intros H. injection H as -> _ Ha -> -> -> Hd.
-  intros (H1 & H2 & H3 & H4 & H5). destruct (strip_sivs_plain _ _ Ha H5) as [P G].
-  rewrite Hd, G. repeat split; assumption.
-Qed.
+  Lemma strip_siv_plain a b : strip_siv a = strip_siv b -> plain_siv o E0 b -> plain_siv o E0' a /\ iv_of E0' a = iv_of E0 b.
+  Proof.
+    intros H (H1 & H2 & H3 & H4 & H5).
+    assert (Hf : siv_name a = siv_name b /\ siv_type a = siv_type b /\ siv_default a = siv_default b
+                 /\ siv_desc a = siv_desc b /\ custom_dirs (siv_dirs a) = custom_dirs (siv_dirs b)).
+    { clear -H. destruct a, b. unfold strip_siv in H. cbn in *. injection H as -> _ -> -> -> Hd. repeat split; try reflexivity; assumption. }
+    destruct Hf as (Fn & Ft & Fd & Fde & Fdi). destruct (dflt_transfer a b Fd Ft H1) as [D1 D2].
+    split.
+    - unfold plain_siv, dirs_ok. rewrite Fn, Ft, Fde, Fdi. repeat split; try assumption; apply H3.
+    - unfold iv_of. rewrite Fn, Ft, Fdi, D2. reflexivity.
+  Qed.
 
-Lemma strip_sfs_plain l1 l2 :
-  map strip_sf l1 = map strip_sf l2 -> Forall plain_sf l2 -> Forall plain_sf l1 /\ map fd_of l1 = map fd_of l2.
-Proof. apply map_eq_transfer. apply strip_sf_plain. Qed.
+  Lemma strip_sivs_plain l1 l2 :
+    map strip_siv l1 = map strip_siv l2 -> Forall (plain_siv o E0) l2 ->
+    Forall (plain_siv o E0') l1 /\ map (iv_of E0') l1 = map (iv_of E0) l2.
+  Proof. apply map_eq_transfer. apply strip_siv_plain. Qed.
 
-Lemma strip_sev_plain a b : strip_sev a = strip_sev b -> plain_sev b -> plain_sev a /\ ev_of a = ev_of b.
-Proof.
-  destruct a, b. unfold strip_sev, plain_sev, ev_of, nodirs. cbn. intros H. injection H as -> _ -> -> Hd.
-  intros (H1 & H2 & H3 & H4). rewrite Hd. repeat split; assumption.
-Qed.
+  Lemma strip_sf_plain a b : strip_sf a = strip_sf b -> plain_sf o E0 b -> plain_sf o E0' a /\ fd_of E0' a = fd_of E0 b.
+  Proof.
+    intros H (H1 & H2 & H3 & H4 & H5).
+    assert (Hf : sf_name a = sf_name b /\ map strip_siv (sf_args a) = map strip_siv (sf_args b)
+                 /\ sf_type a = sf_type b /\ sf_desc a = sf_desc b /\ sf_dep a = sf_dep b
+                 /\ custom_dirs (sf_dirs a) = custom_dirs (sf_dirs b)).
+    { clear -H. destruct a, b. unfold strip_sf in H. cbn in *. injection H as -> _ Ha -> -> -> Hd. repeat split; try reflexivity; assumption. }
+    destruct Hf as (Fn & Fa & Ft & Fde & Fdp & Fdi). destruct (strip_sivs_plain _ _ Fa H5) as [P G].
+    split.
+    - unfold plain_sf, dirs_ok. rewrite Fn, Ft, Fde, Fdi. repeat split; try assumption; apply H2.
+    - unfold fd_of, fdirs. rewrite Fn, Ft, Fdi, Fdp, G. reflexivity.
+  Qed.
 
-Lemma strip_sevs_plain l1 l2 :
-  map strip_sev l1 = map strip_sev l2 -> Forall plain_sev l2 -> Forall plain_sev l1 /\ map ev_of l1 = map ev_of l2.
-Proof. apply map_eq_transfer. apply strip_sev_plain. Qed.
+  Lemma strip_sfs_plain l1 l2 :
+    map strip_sf l1 = map strip_sf l2 -> Forall (plain_sf o E0) l2 ->
+    Forall (plain_sf o E0') l1 /\ map (fd_of E0') l1 = map (fd_of E0) l2.
+  Proof. apply map_eq_transfer. apply strip_sf_plain. Qed.
 
-Lemma strip_tdef_plain a b : strip_tdef a = strip_tdef b -> plain_tdef b -> plain_tdef a /\ def1_of a = def1_of b.
-Proof.
-  destruct a, b; cbn [strip_tdef]; intros H; try discriminate; injection H; clear H;
-    unfold plain_tdef, nodirs; cbn [tdef_desc tdef_dirs tdef_name def1_of].
-  - intros Hd -> ->. intros (H1 & H2 & H3 & _). rewrite Hd. repeat split; assumption.
-  - intros Hd Hf -> -> ->. intros (H1 & H2 & H3 & Hne & Hfs & His).
-    destruct (strip_sfs_plain _ _ Hf Hfs) as [P G]. rewrite Hd, G. repeat split; try assumption.
-    eapply map_eq_nonempty; eassumption.
-  - intros Hd Hf -> ->. intros (H1 & H2 & H3 & Hne & Hfs).
-    destruct (strip_sfs_plain _ _ Hf Hfs) as [P G]. rewrite Hd, G. repeat split; try assumption.
-    eapply map_eq_nonempty; eassumption.
-  - intros Hd -> -> ->. intros (H1 & H2 & H3 & Hne & Hms). rewrite Hd. repeat split; assumption.
-  - intros Hd Hv -> ->. intros (H1 & H2 & H3 & Hne & Hvs).
-    destruct (strip_sevs_plain _ _ Hv Hvs) as [P G]. rewrite Hd, G. repeat split; try assumption.
-    eapply map_eq_nonempty; eassumption.
-  - intros Hd Hf -> ->. intros (H1 & H2 & H3 & Hne & Hfs).
-    destruct (strip_sivs_plain _ _ Hf Hfs) as [P G]. rewrite Hd, G. repeat split; try assumption.
-    eapply map_eq_nonempty; eassumption.
-Qed.
+  Lemma strip_sev_plain a b : strip_sev a = strip_sev b -> plain_sev o b -> plain_sev o a /\ ev_of a = ev_of b.
+  Proof.
+    intros H (H1 & H2 & H3 & H4).
+    assert (Hf : sev_name a = sev_name b /\ sev_desc a = sev_desc b /\ sev_dep a = sev_dep b
+                 /\ custom_dirs (sev_dirs a) = custom_dirs (sev_dirs b)).
+    { clear -H. destruct a, b. unfold strip_sev in H. cbn in *. injection H as -> _ -> -> Hd. repeat split; try reflexivity; assumption. }
+    destruct Hf as (Fn & Fde & Fdp & Fdi). split.
+    - unfold plain_sev, dirs_ok. rewrite Fn, Fde, Fdi. repeat split; try assumption; apply H2.
+    - unfold ev_of, edirs. rewrite Fn, Fdp, Fdi. reflexivity.
+  Qed.
 
-Lemma strip_ddef_plain a b : strip_ddef a = strip_ddef b -> plain_ddef b -> plain_ddef a /\ ddef1_of a = ddef1_of b.
-Proof.
-  destruct a, b. unfold strip_ddef, plain_ddef, ddef1_of. cbn. intros H. injection H as -> -> -> Ha.
-  intros (H1 & H2 & H3 & H4 & H5). destruct (strip_sivs_plain _ _ Ha H3) as [P G]. rewrite G. repeat split; assumption.
-Qed.
+  Lemma strip_sevs_plain l1 l2 :
+    map strip_sev l1 = map strip_sev l2 -> Forall (plain_sev o) l2 ->
+    Forall (plain_sev o) l1 /\ map ev_of l1 = map ev_of l2.
+  Proof. apply map_eq_transfer. apply strip_sev_plain. Qed.
+
+  Lemma strip_tdef_plain a b :
+    strip_tdef a = strip_tdef b -> plain_tdef o E0 b -> plain_tdef o E0' a /\ def1_of E0' a = def1_of E0 b.
+  Proof.
+    destruct a, b; cbn [strip_tdef]; intros H; try discriminate; injection H; clear H;
+      unfold plain_tdef, dirs_ok; cbn [tdef_desc tdef_dirs tdef_name def1_of].
+    - intros Hd -> ->. intros (H1 & [H2a H2b] & H3 & _). rewrite Hd. repeat split; assumption.
+    - intros Hd Hf -> -> ->. intros (H1 & [H2a H2b] & H3 & Hne & Hfs & His).
+      destruct (strip_sfs_plain _ _ Hf Hfs) as [P G]. rewrite Hd, G. repeat split; try assumption.
+      exact (map_eq_nonempty _ _ _ Hf Hne).
+    - intros Hd Hf -> ->. intros (H1 & [H2a H2b] & H3 & Hne & Hfs).
+      destruct (strip_sfs_plain _ _ Hf Hfs) as [P G]. rewrite Hd, G. repeat split; try assumption.
+      exact (map_eq_nonempty _ _ _ Hf Hne).
+    - intros Hd -> -> ->. intros (H1 & [H2a H2b] & H3 & Hne & Hms). rewrite Hd. repeat split; assumption.
+    - intros Hd Hv -> ->. intros (H1 & [H2a H2b] & H3 & Hne & Hvs).
+      destruct (strip_sevs_plain _ _ Hv Hvs) as [P G]. rewrite Hd, G. repeat split; try assumption.
+      exact (map_eq_nonempty _ _ _ Hv Hne).
+    - intros Hd Hf -> ->. intros (H1 & [H2a H2b] & H3 & Hne & Hfs).
+      destruct (strip_sivs_plain _ _ Hf Hfs) as [P G]. rewrite Hd, G. repeat split; try assumption.
+      exact (map_eq_nonempty _ _ _ Hf Hne).
+  Qed.
+
+  Lemma strip_ddef_plain a b :
+    strip_ddef a = strip_ddef b -> plain_ddef o E0 b -> plain_ddef o E0' a /\ ddef1_of E0' a = ddef1_of E0 b.
+  Proof.
+    destruct a as [an ad al aa], b as [bn bd bl ba]. unfold strip_ddef, plain_ddef, ddef1_of.
+    cbn [dd_name dd_desc dd_locs dd_args]. intros H. injection H as -> -> -> Ha.
+    intros (H1 & H2 & H3 & H4 & H5). destruct (strip_sivs_plain _ _ Ha H3) as [P G]. rewrite G. repeat split; assumption.
+  Qed.
+End StripTransfer.
 
 (* ---- sorting a sorted list ------------------------------------------- *)
 Lemma str_leb_refl a : str_leb a a = true.
@@ -236,16 +269,39 @@ Lemma root_is_default_alt sc r dn :
     end.
 Proof. unfold root_is_default, default_root. destruct r; [reflexivity|]. destruct (find_type dn (s_types sc)) as [[]|]; reflexivity. Qed.
 
-Lemma declares_again_doc sc sc' :
-  plain_schema sc -> has_dup (map tdef_name (s_types sc)) = false ->
-  declares_again sc sc' -> plain_schema sc' /\ doc_of sc' = doc_of sc.
+Lemma tinfo_strip t : tinfo_of_tdef (strip_tdef t) = tinfo_of_tdef t.
 Proof.
-  intros (Ht & Hd & Hr & Hne) Hdup (Hts & HD & Rq & Rm & Rs & Rd).
+  destruct t; cbn [strip_tdef tinfo_of_tdef]; try reflexivity; rewrite map_map; f_equal; apply map_ext; intros []; reflexivity.
+Qed.
+
+Lemma env_declares_again sc sc' :
+  has_dup (map tdef_name (s_types sc)) = false -> declares_again sc sc' ->
+  forall n, alookup n (env_of_schema [] sc) = alookup n (env_of_schema [] sc').
+Proof.
+  intros Hdup (Hts & _) n. unfold env_of_schema. rewrite !app_nil_r.
+  set (f := fun t => (tdef_name t, tinfo_of_tdef t)).
+  assert (Hf : forall l, map f (map strip_tdef l) = map f l).
+  { intros l. rewrite map_map. apply map_ext. intros t. unfold f. rewrite strip_tdef_name, tinfo_strip. reflexivity. }
+  rewrite <- (Hf (s_types sc')), Hts, Hf. symmetry. apply alookup_perm.
+  - apply Permutation_map. apply sort_by_perm.
+  - rewrite map_map. cbn [fst]. apply has_dup_NoDup.
+    eapply has_dup_perm; [apply Permutation_map; apply Permutation_sym; apply sort_by_perm|exact Hdup].
+Qed.
+
+Lemma declares_again_doc o sc sc' :
+  text_schema o sc -> has_dup (map tdef_name (s_types sc)) = false ->
+  declares_again sc sc' -> text_schema o sc' /\ doc_of sc' = doc_of sc.
+Proof.
+  intros (Ht & Hd & Hr & Hne) Hdup Hda. pose proof (env_declares_again sc sc' Hdup Hda) as Henv.
+  destruct Hda as (Hts & HD & Rq & Rm & Rs & Rd).
+  set (E0 := env_of_schema [] sc) in *. set (E0' := env_of_schema [] sc') in *.
   set (st := sort_by tdef_name (s_types sc)) in *. set (sd := sort_by dd_name (s_ddefs sc)) in *.
-  assert (Hst : Forall plain_tdef st) by (apply sort_by_Forall; exact Ht).
-  assert (Hsd : Forall plain_ddef sd) by (apply sort_by_Forall; exact Hd).
-  destruct (map_eq_transfer strip_tdef plain_tdef def1_of strip_tdef_plain _ _ Hts Hst) as [Pt Gt].
-  destruct (map_eq_transfer strip_ddef plain_ddef ddef1_of strip_ddef_plain _ _ HD Hsd) as [Pd Gd].
+  assert (Hst : Forall (plain_tdef o E0) st) by (apply sort_by_Forall; exact Ht).
+  assert (Hsd : Forall (plain_ddef o E0) sd) by (apply sort_by_Forall; exact Hd).
+  destruct (map_eq_transfer strip_tdef (plain_tdef o E0) (plain_tdef o E0') (def1_of E0) (def1_of E0')
+              (strip_tdef_plain o E0 E0' Henv) _ _ Hts Hst) as [Pt Gt].
+  destruct (map_eq_transfer strip_ddef (plain_ddef o E0) (plain_ddef o E0') (ddef1_of E0) (ddef1_of E0')
+              (strip_ddef_plain o E0 E0' Henv) _ _ HD Hsd) as [Pd Gd].
   (* the rebuilt lists are sorted already *)
   assert (Hsort_t : sort_by tdef_name (s_types sc') = s_types sc').
   { apply sort_by_id. apply (sorted_by_keys tdef_name tdef_name _ st); [|apply sort_by_sorted].
@@ -262,30 +318,27 @@ Proof.
     rewrite (find_type_perm st (s_types sc) n Pst Hnd). reflexivity. }
   assert (Hneeded : schema_def_needed sc' = schema_def_needed sc).
   { unfold schema_def_needed. rewrite !root_is_default_alt, Rq, Rm, Rs, Rd, !Hdr. reflexivity. }
-  assert (Hsdef : sdef_of sc' = sdef_of sc) by (unfold sdef_of; rewrite Rq, Rm, Rs; reflexivity).
+  assert (Hsdef : sdef_of sc' = sdef_of sc) by (unfold sdef_of; rewrite Rq, Rm, Rs, Rd; reflexivity).
   split.
   - split; [exact Pt|]. split; [exact Pd|]. split.
-    + destruct Hr as (Hn & Hq & Hm & Hs). unfold plain_roots. rewrite Rq, Rm, Rs. unfold nodirs in *. rewrite Rd.
-      repeat split; assumption.
+    + destruct Hr as (Hn & Hq & Hm & Hs). unfold plain_roots, dirs_ok in *. rewrite Rq, Rm, Rs, Rd.
+      repeat split; try assumption; apply Hn.
     + eapply map_eq_nonempty; [exact Hts|]. apply sort_by_nonempty; exact Hne.
-  - unfold doc_of. rewrite Hsort_t, Hsort_d, Gt, Gd, Hneeded, Hsdef. reflexivity.
+  - unfold doc_of. fold E0 E0' st sd. rewrite Hsort_t, Hsort_d, Gt, Gd, Hneeded, Hsdef. reflexivity.
 Qed.
 
-(* C12_fixpoint for plain schemas: the rebuilt schema prints to the same text *)
-Theorem fixpoint_plain intro spec o sc sc' :
-  plain_schema sc -> has_dup (map tdef_name (s_types sc)) = false -> declares_again sc sc' ->
+(* C12_fixpoint: a schema that declares [sc] again prints to the same text *)
+Theorem fixpoint_declares_again intro spec o sc sc' :
+  text_schema o sc -> has_dup (map tdef_name (s_types sc)) = false -> declares_again sc sc' ->
   po_introspection o = false ->
   print_schema intro spec o sc' = print_schema intro spec o sc.
 Proof.
-  intros Hp Hdup Hda Hi. destruct (declares_again_doc sc sc' Hp Hdup Hda) as [Hp' Hdoc].
-  destruct (print_is_print_ast o intro spec sc Hp Hi) as (d & Hd & Ht).
-  destruct (print_is_print_ast o intro spec sc' Hp' Hi) as (d' & Hd' & Ht').
-  rewrite (ast_of_schema_plain sc Hp) in Hd. rewrite (ast_of_schema_plain sc' Hp') in Hd'.
-  injection Hd as <-. injection Hd' as <-. rewrite Ht, Ht', Hdoc. reflexivity.
+  intros Hp Hdup Hda Hi. destruct (declares_again_doc o sc sc' Hp Hdup Hda) as [Hp' Hdoc].
+  rewrite (print_is_print_ast o intro spec sc Hp Hi), (print_is_print_ast o intro spec sc' Hp' Hi), Hdoc. reflexivity.
 Qed.
 
-Theorem text_roundtrip_fixpoint_plain intro spec o fl sc text :
-  plain_schema sc -> valid_locations sc -> schema_okb sc = true ->
+Theorem text_roundtrip_fixpoint intro spec o fl sc text :
+  text_schema o sc -> valid_locations sc -> schema_okb sc = true -> defaults_guard sc ->
   po_introspection o = false ->
   no_location fl = true -> allow_type_system fl = true -> all_ws (po_indent o) ->
   print_schema intro spec o sc = Ok text ->
@@ -294,10 +347,10 @@ Theorem text_roundtrip_fixpoint_plain intro spec o fl sc text :
                 /\ roundtrip_equiv sc' sc = true
                 /\ print_schema intro spec o sc' = Ok text.
 Proof.
-  intros Hp Hl Hok Hi Hnl Hts Hws Hprint.
-  destruct (text_roundtrip_plain intro spec o fl sc text Hp Hl Hok Hi Hnl Hts Hws Hprint)
+  intros Hp Hl Hok Hg Hi Hnl Hts Hws Hprint.
+  destruct (text_roundtrip intro spec o fl sc text Hp Hl Hok Hg Hi Hnl Hts Hws Hprint)
     as (d & sc' & H1 & H2 & H3 & H4).
-  exists d, sc'. repeat split; try assumption. rewrite <- Hprint. apply fixpoint_plain; try assumption.
+  exists d, sc'. repeat split; try assumption. rewrite <- Hprint. apply fixpoint_declares_again; try assumption.
   unfold schema_okb in Hok.
   apply andb_prop in Hok; destruct Hok as [Hok _].
   apply andb_prop in Hok; destruct Hok as [Hok _].
